@@ -132,6 +132,16 @@ def gen_specs(run):
             ptags.append("promise")
         specs.append({"id": f"c04-{ci}", "group": "fm", "members": pm, "derived": [dict(d, **{"from": 0}) for d in derived],
                       "verifies": verifies, "_tags": tags, "_ptags": ptags, "_conf": [b, m, T], "with_gens": False})
+        if ci < 10 or T >= 5:
+            # only the ENCODING of a generator changed (the commitments, being computed from the points, stay the same points): every challenge must still
+            # differ, for every blinding generator of every extension degree.  Such parameter sets are inconsistent by construction (the verifier is handed
+            # the cached encodings, the equation the points), so they are verified alone: no embedding into batches, no mode sweep
+            ev, et = [{"mode": "VerifyOnly", "vmembers": [base]}], [("base", 0)]
+            for tg, over in [("H-encoding", {"hc_scale": gen.hx(3)})] + [(f"Gb-encoding{kk}", {"gbc_scale": [kk, gen.hx(5)]}) for kk in range(T)]:
+                ev.append({"mode": "VerifyOnly", "vmembers": [gen.vmember(mem, 0, **over)]})
+                et.append((tg, 0))
+            specs.append({"id": f"c04-enc-{ci}", "group": "fm", "members": [mem], "verifies": ev, "_tags": et, "_ptags": ["base"], "_conf": [b, m, T], "with_gens": False,
+                          "_no_embed": True, "_no_modes": True})
         # derived proof indices start after all members
         off = len(pm)
         for v in verifies:
